@@ -1121,7 +1121,12 @@ class GroupMove(Writer):
         return A(self=wnode_obj(cx), source=SStr(z3.String("source")), dest=SStr(z3.String("dest")))
 
     def raises(self, cx, a):
-        return {"Exception": z3.BoolVal(True)}
+        # move refuses nothing by itself -- whatever is refused is refused by the copy or by the deletion (their contracts), exactly as on the single
+        # tree -- except, at most, a destination that IS the source or lies INSIDE it (path-segment boundary; the single tree refuses that too)
+        src, dst = abs_path_term(a.self, a.source.t), abs_path_term(a.self, a.dest.t)
+        sl = z3.StringVal("/")
+        inside = z3.Or(dst == src, z3.PrefixOf(z3.Concat(src, sl), dst), z3.Concat(dst, sl) == src, z3.Concat(src, sl) == dst, src == sl)
+        return {"Exception": inside}
 
     def ensures(self, cx, a, res):
         calls = list(cx.fx)
